@@ -131,7 +131,13 @@ pub fn write_event(
     logger_key: &str,
 ) {
     let event_message = if message.len() > MAX_MESSAGE_LENGTH {
-        message[..MAX_MESSAGE_LENGTH].to_string()
+        // slicing a str off a char boundary panics, back off to the closest boundary
+        // (the message may carry non-ASCII user names, paths or host error text)
+        let mut end = MAX_MESSAGE_LENGTH;
+        while !message.is_char_boundary(end) {
+            end -= 1;
+        }
+        message[..end].to_string()
     } else {
         message.to_string()
     };
